@@ -20,7 +20,7 @@ PROP = "C08"
 def make_library(r):
     """Returns (text, top-level names, {class: member names})."""
     style = lambda base: r.choice([base, base, _camel(base), base.upper() if r.random() < 0.2 else base, "_" + base if r.random() < 0.15 else base])  # noqa: E731
-    n = {k: style(k) for k in ["const_value", "other_const", "helper_func", "camel_case_func", "unused_one", "dup_a", "dup_b", "widget", "get_value", "no_self", "make_default", "kind_name", "spare_class"]}
+    n = {k: style(k) for k in ["const_value", "other_const", "helper_func", "camel_case_func", "unused_one", "dup_a", "dup_b", "widget", "get_value", "no_self", "make_default", "kind_name", "spare_class", "build_widget", "shared_widget"]}
     gap = r.choice(["\n\n\n", "\n\n", "\n"])
     parts = [
         "import math\nimport os",
@@ -33,9 +33,11 @@ def make_library(r):
         f"class {n['widget']}:\n    {n['kind_name']} = 'w'\n\n    def __init__(self, v):\n        self.v = v\n\n    def {n['get_value']}(self):\n        return self.v\n\n"
         f"    def {n['no_self']}(self):\n        return 42\n\n    @staticmethod\n    def {n['make_default']}():\n        return {n['widget']}(0)",
         f"class {n['spare_class']}:\n    pass",
+        f"def {n['build_widget']}(v):\n    return {n['widget']}(v)",
+        f"{n['shared_widget']} = {n['widget']}(7)",
     ]
     text = gap.join(parts) + "\n"
-    top = [n[k] for k in ("const_value", "other_const", "helper_func", "camel_case_func", "unused_one", "dup_a", "dup_b", "widget", "spare_class")]
+    top = [n[k] for k in ("const_value", "other_const", "helper_func", "camel_case_func", "unused_one", "dup_a", "dup_b", "widget", "spare_class", "build_widget", "shared_widget")]
     members = {n["widget"]: [n[k] for k in ("get_value", "no_self", "make_default", "kind_name")]}
     return text, top, members, n
 
@@ -48,7 +50,7 @@ def _camel(s):
 def make_client(r, modname, n):
     """A client using a random subset of the library in several access forms. Returns (text, names it depends on)."""
     lines, used = [], set()
-    forms = r.sample(range(8), r.randint(2, 5))
+    forms = r.sample(range(11), r.randint(2, 5))
     for f in forms:
         if f == 0:
             lines += [f"from {modname} import {n['helper_func']}", f"print('h', {n['helper_func']}(2))"]
@@ -71,9 +73,20 @@ def make_client(r, modname, n):
         elif f == 6:
             lines += [f"from {modname} import {n['unused_one']}, {n['spare_class']}", f"print('u', {n['unused_one']}(), {n['spare_class']}.__name__ is not None)"]
             used |= {n["unused_one"], n["spare_class"]}
-        else:
+        elif f == 7:
             lines += [f"from {modname} import {n['dup_b']} as other", f"print('o', other(1))"]
             used.add(n["dup_b"])
+        elif f == 8:  # an instance from a factory: the class is never named
+            lines += [f"from {modname} import {n['build_widget']}", f"made = {n['build_widget']}(2)",
+                      f"print('f', made.{n['get_value']}(), made.{n['make_default']}().v, made.{n['no_self']}(), made.{n['kind_name']})"]
+            used |= {n["build_widget"], n["get_value"], n["make_default"], n["no_self"], n["kind_name"]}
+        elif f == 9:  # a module-level instance
+            lines += [f"import {modname} as M", f"print('s', M.{n['shared_widget']}.{n['make_default']}().v, M.{n['shared_widget']}.{n['get_value']}())"]
+            used |= {n["shared_widget"], n["make_default"], n["get_value"]}
+        else:  # a facade: names are imported (and re-exported) but never used
+            lines += [f"from {modname} import {n['helper_func']}, {n['dup_a']} as facade_dup, {n['const_value']}, {n['spare_class']}",
+                      f"__all__ = ['{n['helper_func']}', 'facade_dup', '{n['const_value']}', '{n['spare_class']}']", "print('facade')"]
+            used |= {n["helper_func"], n["dup_a"], n["const_value"], n["spare_class"]}
     return "\n".join(lines) + "\n", used
 
 
@@ -101,8 +114,8 @@ def w_subsets(arg):
             for name in P:
                 owner = next((cls for cls, ms in members.items() if name in ms), None)
                 if owner is not None:
-                    if owner not in P:
-                        continue  # the class itself is not preserved: whether its member must survive is left open
+                    if owner not in P and owner not in have:
+                        continue  # the class is neither preserved nor kept: whether a member of a deleted class must survive is left open
                     ok = f"{owner}.{name}" in have
                 else:
                     ok = name in have
